@@ -96,6 +96,15 @@ def check_case(ctx, case):
             a, b = view(prod), view(back)
             ctx.fail("GenBank round trip changes feature types/locations: {} vs {}".format(
                 [x for x in a if x not in b][:2], [x for x in b if x not in a][:2]), case)
+    # a complete record: every /citation of the feature table is the bracketed number of one of its REFERENCE blocks
+    nrefs = len(prod.annotations.get("references", []) or [])
+    for f in prod.features:
+        for c in f.qualifiers.get("citation", []) or []:
+            m_ = re.fullmatch(r"\[(\d+)\]", c) if isinstance(c, str) else None
+            if m_ is None or not 1 <= int(m_.group(1)) <= nrefs:
+                ctx.fail("a feature of the product carries /citation={!r} although the record has {} REFERENCE block(s)".format(
+                    c if isinstance(c, str) else type(c).__name__, nrefs), case)
+                break
     ctx.note("fragments={}".format(len(spans)))
     ctx.case({k: v for k, v in case.items() if k != "info"}, nontrivial=len(spans) >= 2)
     case2 = dict(case, pid=1, pname=2)
@@ -259,7 +268,13 @@ def run(ctx):
         case, info = g
         for e in [case["vector"]] + case["mods"]:
             n = len(e["word"])
-            feats = [f for f in gen.gen_features(rng, n, rng.choice([0, 2, 4])) if all(0 <= p[0] < p[1] <= n for p in f.parts)]
+            nref = len(e.get("refs") or [])
+            feats = [f for f in gen.gen_features(rng, n, rng.choice([0, 2, 4]), allow_cites=nref)
+                     if all(0 <= p[0] < p[1] <= n for p in f.parts)]
+            if nref:
+                # a documented plasmid: small cited features all along it, each paper cited more than once
+                from wire import Feat
+                feats += [Feat(1, "u7", ("i%d" % (1 + (p // 2) % min(nref, 3)),), ((p, p + 1, 1),)) for p in range(0, n - 1, 2)]
             e["feats"] = feats_to_json(feats)
         if rng.random() < 0.2:
             used = {m["o5"] for m in info["mparts"]}
